@@ -151,6 +151,9 @@ var exprCtxs = []nestCtx{
 	{"frame-bound", "SUM(a) OVER (ORDER BY a ROWS ", " PRECEDING)"}, {"agg-order-by", "STRING_AGG(a, ',' ORDER BY ", ")"}, {"within-group", "PERCENTILE_CONT(0.5) WITHIN GROUP (ORDER BY ", ")"},
 	{"like-pattern", "a LIKE (", ")"}, {"cmp-rhs", "a = (", ")"}, {"and-rhs", "a = 1 AND (", ")"}, {"or-rhs", "a = 1 OR (", ")"}, {"concat-rhs", "a || (", ")"}, {"arith-rhs", "a + (", ")"},
 	{"is-null", "(", ") IS NULL"}, {"json-rhs", "a -> (", ")"},
+	// the MySQL full-text predicate parses its search operand as a primary, re-entering itself without a parenthesised expression
+	// (its operand is a primary, so only the parenthesised variant composes with the other contexts)
+	{"match-against", "MATCH(a) AGAINST (", ")"}, {"match-against-paren", "MATCH(a) AGAINST ((", "))"},
 	// prefix operators re-entered through the right operand of a binary operator (no parenthesis in between)
 	{"not-cmp", "NOT a = ", ""}, {"not-plus", "NOT a + ", ""}, {"not-like", "NOT a LIKE ", ""}, {"not-json", "NOT a -> ", ""}, {"not-concat", "NOT a || ", ""},
 }
@@ -247,7 +250,7 @@ func c02Cases(quick bool) []c02Case {
 	}
 	for i, a := range exprCtxs {
 		for j, b := range exprCtxs {
-			if i == j {
+			if i == j || a.Name == "match-against" || b.Name == "match-against" {
 				continue
 			}
 			if quick && (i*7+j*3)%5 != 0 {
